@@ -151,6 +151,12 @@ def use_triples(kind, definer, ekind, variant, level):
 
     def add(t):
         n = sum(1 for u in t for w in u if is_addr(w))
+        if kind == "ifn" and definer == "E" and (t[1] or t[2]) and not any(w in ("d32", "d32s", "d64") for w in t[0]):
+            # glibc refuses to start a process in which a library refers to an IFUNC symbol exported by
+            # the executable ("creates an unsatisfiable circular dependency"); libraries can refer to
+            # E's IFUNC only where E exports its PLT entry as an ordinary function (absolute address
+            # taken in a non-PIE).
+            return
         if n >= 2 and t not in seen:
             seen.add(t)
             out.append(t)
